@@ -103,6 +103,12 @@ func runMint(seed uint64, n int, out *Out) {
 		out.Impl("n %d", h)
 
 		p := genMintParams(r, extreme)
+		if r.Chance(30) {
+			// the excluded amount relative to the supply: small, about half, most of it, all of it, more than it
+			sup := e.Supply()
+			num := r.Pick([]int64{1, 40, 50, 51, 60, 90, 99, 100, 101, 150})
+			p.ExcludeAmount = sup.MulRaw(num).QuoRaw(100)
+		}
 		valid := p.Validate() == nil
 		out.Op("%s", opParams(p))
 		out.Impl("v %d", b2i(valid))
